@@ -11,7 +11,7 @@ What is modelled, function by function (mistral @ /repo):
                               recursion `for task_ex in wf_ex.task_executions: for sub in
                               get_workflow_executions(task_execution_id=task_ex.id): if not
                               is_completed(sub.state): stop_workflow(sub, ...)` IN THE SAME
-                              TRANSACTION                                          -> `reached`, `cancelTx`
+                              TRANSACTION                                          -> `below`, `cancelTx`
   * engine/workflows.py       Workflow.stop / _succeed_workflow / _fail_workflow / _cancel_workflow /
                               set_state (table + CAS) / check_and_complete /
                               _send_result_to_parent_workflow (a post-commit operation that sends the
@@ -205,16 +205,18 @@ def checkAndComplete (w : World) (i : Nat) : World :=
       else finish w i e .ERROR .auto (.result .auto)
 
 /-- `Workflow.stop(state, msg)`; `none` = an exception leaves the entry point (invalid transition:
-    WorkflowException) and the whole transaction is rolled back.  `_succeed_workflow` has NO
-    is-completed guard: SUCCESS -> SUCCESS is a valid (identity) transition, the state_info is
-    overwritten and the result is sent to the parent again. -/
+    WorkflowException) and the whole transaction is rolled back.  All three of `_succeed_workflow`,
+    `_fail_workflow`, `_cancel_workflow` ignore an execution that is already completed
+    (`_succeed_workflow` since repo patch 15). -/
 def stopOne (w : World) (i : Nat) (s : St) (msg : String) : Option World :=
   match w.execs[i]? with
   | none => none                               -- DBEntityNotFoundError
   | some e =>
     match s with
     | .SUCCESS =>
-      if isValidTransition e.state .SUCCESS == some true then some (finish w i e .SUCCESS (.op msg) .data) else none
+      if isCompleted e.state then some w
+      else if isValidTransition e.state .SUCCESS == some true
+        then some (finish w i e .SUCCESS (.op msg) .data) else none
     | .ERROR =>
       if isCompleted e.state then some w
       else if isValidTransition e.state .ERROR == some true
@@ -225,17 +227,9 @@ def stopOne (w : World) (i : Nat) (s : St) (msg : String) : Option World :=
         then some (finish w i e .CANCELLED (.op msg) (.result (.op msg))) else none
     | _ => some w
 
-/-- which executions the recursion of `stop_workflow(a, CANCELLED)` visits: `a` itself, and every
-    execution that is NOT completed and whose parent execution is visited (the loop skips completed
-    children and therefore everything below them).  Fuel: the depth of the tree. -/
-def reached (w : World) (a : Nat) : Nat → Nat → Bool
-  | 0, _ => false
-  | f + 1, x =>
-    x == a || (match w.execs[x]?, parentWf w x with
-      | some e, some p => !isCompleted e.state && reached w a f p
-      | _, _ => false)
-
-/-- `x` is `a` or a descendant of `a` (whatever the states on the path) -/
+/-- `x` is `a` or a descendant of `a` (whatever the states on the path): what the recursion of
+    `stop_workflow(a, CANCELLED)` visits (since repo patch 14 the loop over the sub-workflows of every task
+    execution descends into completed children too).  Fuel: the depth of the tree. -/
 def below (w : World) (a : Nat) : Nat → Nat → Bool
   | 0, _ => false
   | f + 1, x =>
@@ -251,11 +245,10 @@ def cancelled (msg : String) (e : Exec) : Exec :=
 
 /-- is execution x (row e) cancelled by `stop_workflow(a, CANCELLED)`? -/
 def hit (w : World) (a : Nat) (x : Nat) (e : Exec) : Bool :=
-  reached w a w.execs.length x && !isCompleted e.state
+  below w a w.execs.length x && !isCompleted e.state
 
-/-- the whole transaction of `stop_workflow(a, CANCELLED, msg)`; the visited set is computed on the
-    rows as they were when the transaction began (each execution is visited at most once, and the loop
-    tests a child's state before that child is touched) -/
+/-- the whole transaction of `stop_workflow(a, CANCELLED, msg)`: every execution at or below `a` that is not
+    completed is cancelled (each execution is visited once; `_cancel_workflow` ignores completed ones) -/
 def cancelTx (w : World) (a : Nat) (msg : String) : World :=
   { w with
     execs := w.execs.mapIdx fun x e => if hit w a x e then cancelled msg e else e,
@@ -277,7 +270,9 @@ def startWf (c : Cfg) (w : World) (d : Nat) (parent : Option Nat) (index : Nat) 
   let w2 := dispatch w1 i (startTasks (defOf c d))
   if check then checkAndComplete w2 i else w2
 
-/-- `WorkflowAction.schedule` for item `idx` of task t -/
+/-- `WorkflowAction.schedule` for item `idx` of task t (called when the parent workflow execution is not
+    completed; for a completed one `schedule` raises WorkflowException since repo patch 16 and the caller
+    completes the task with ERROR) -/
 def startSub (c : Cfg) (w : World) (t : Nat) (d : Nat) (idx : Nat) : World :=
   if c.viaRpc then { w with pending := w.pending ++ [.postStartSub t idx] }
   else startWf c w d (some t) idx false
@@ -315,13 +310,22 @@ def wiSchedule (c : Cfg) (w : World) (t : Nat) (d : Nat) (count : Nat) (cap : Op
   let idxs := wiNextIndexes w t count cap
   if idxs.isEmpty then completeTask c w t .SUCCESS
   else
-    let w1 := idxs.foldl (fun w i => startSub c w t d i) w
-    match w1.tasks[t]? with
-    | some tk => { w1 with tasks := w1.tasks.set t { tk with wi := some (count, cap.map (· - idxs.length)) } }
-    | none => w1
+    match w.tasks[t]? with
+    | none => w
+    | some tk0 =>
+      match w.execs[tk0.wf]? with
+      | none => w
+      | some e =>
+        -- WorkflowAction.schedule raises for a completed parent workflow: the task completes with ERROR
+        if isCompleted e.state then completeTask c w t .ERROR
+        else
+          let w1 := idxs.foldl (fun w i => startSub c w t d i) w
+          match w1.tasks[t]? with
+          | some tk => { w1 with tasks := w1.tasks.set t { tk with wi := some (count, cap.map (· - idxs.length)) } }
+          | none => w1
 
 /-- `task_handler.run_task(first_run=True)` -> `RegularTask._run_new`: only an IDLE task starts.  The
-    state of the WORKFLOW is not consulted. -/
+    state of the WORKFLOW is not consulted, except that no sub-workflow is started in a completed one. -/
 def runTask (c : Cfg) (w : World) (t : Nat) : World :=
   match w.tasks[t]? with
   | none => w
@@ -334,7 +338,8 @@ def runTask (c : Cfg) (w : World) (t : Nat) : World :=
       match kindOf c e.defn tk.name with
       | none => w1
       | some .action => { w1 with pending := w1.pending ++ [.postRunAction t] }
-      | some (.subwf d none _) => startSub c w1 t d 0
+      | some (.subwf d none _) =>
+        if isCompleted e.state then completeTask c w1 t .ERROR else startSub c w1 t d 0
       | some (.subwf d (some n) conc) =>
         let w2 := { w with tasks := w.tasks.set t { tk with state := .RUNNING, wi := some (n, conc) } }
         wiSchedule c w2 t d n conc
@@ -436,7 +441,10 @@ def step (c : Cfg) (w : World) : Event → World
         match w.execs[tk.wf]? with
         | some e =>
           match kindOf c e.defn tk.name with
-          | some (.subwf d _ _) => startWf c w d (some t) i true
+          | some (.subwf d _ _) =>
+            -- DefaultEngine.start_workflow (repo patch 16): a child of a completed workflow execution is
+            -- not started, its parent task is completed with ERROR
+            if isCompleted e.state then completeTask c w t .ERROR else startWf c w d (some t) i true
           | _ => w
         | none => w
       | none => w
